@@ -662,6 +662,39 @@ def tb_use_@I@(v):
         count = len(names)
     return names, saved.args, saved.__traceback__ is not None
 ''', 'tb_use_@I@(@A@)'),
+    ('kept_error', '''
+class Outcome_@I@:
+    """Keeps the error of a piece of work for whoever asks for the result later (as a future does)."""
+
+    def __init__(self):
+        self.error = None
+        self.value = None
+
+    def result(self):
+        if self.error is not None:
+            raise self.error
+        return self.value
+
+
+def kept_work_@I@(v):
+    raise HostError("work failed", v)
+
+
+def kept_error_@I@(v):
+    outcome = Outcome_@I@()
+    try:
+        kept_work_@I@(v)
+    except HostError as err:
+        outcome.error = err
+    seen = outcome.error is not None
+    waited = [seen, v]
+    names = []
+    tb = outcome.error.__traceback__
+    while tb is not None:
+        names.append(tb.tb_frame.f_code.co_name)
+        tb = tb.tb_next
+    return seen, names, waited
+''', 'kept_error_@I@(@A@)'),
     ('prng', '''
 def prng_@I@(seed):
     import random
